@@ -263,6 +263,19 @@ func init() {
 			}
 		},
 	}
+	plans["C16"] = &Plan{
+		Level: "exploration",
+		Rule: "per case one shared node in its raw state, obtained in one of the 5 documented ways (NewRawConcurrentRead, Searcher{ConcurrentRead}.GetByPath, GetWithOptions(ConcurrentRead), a plain search result after LoadAll(), after Load()), at the root or at a seeded sub-path of the document (wide objects of 1-60 members on both sides of the 16-pair index threshold with escaped keys, arrays of 1-40 elements, scalars, structure-random documents); 2-12 goroutines released by a barrier each run the whole operation list (~12 paths x 3 accessors + 5 root reads; accessors: Raw, Interface, MarshalJSON, typed accessors by kind, Map, Array, InterfaceUseNumber, TypeSafe/Valid, first child; GetByPath or step-wise Get/Index) in their own order, a third in list order, half of the cases with Gosched between reads; oracle = the same operation on a private identically obtained node, single-threaded, computed beforehand. Len/Cap are not exercised on lazy nodes (finding B9). The race-detector run reports unsynchronised accesses",
+		Assumptions: []string{"the race detector reports the unsynchronised conflicting accesses it observes; absence of a report is not absence of a race", "only executions (interleavings) actually produced are decided"},
+		MinEvals:    8000, MinEvalsThorough: 500000,
+		Runs: func(string) []*Run {
+			return []*Run{
+				{Name: "plain", Flavor: "plain", NBatch: n(4, 16), TimeoutS: n(900, 6000)},
+				{Name: "plain-2procs", Flavor: "plain", NBatch: n(2, 8), Env: []string{"GOMAXPROCS=2"}, TimeoutS: n(900, 6000)},
+				{Name: "race", Flavor: "race", Mode: "race", NBatch: n(4, 16), Env: []string{"GOMAXPROCS=4"}, TimeoutS: n(1200, 6000)},
+			}
+		},
+	}
 	plans["C18"] = &Plan{
 		Level: "exploration",
 		Rule: "single-switch metamorphic relations: for a switch S and a random setting R of the 15 other switches, the same value/document is run with R and with R+S and the difference must be exactly S's documented effect: EscapeHTML == encoding/json.HTMLEscape(out_R); SortMapKeys changes member order only (and top-level map keys ascend); NoNullSliceOrMap == out_R of the value with nil slices/maps made empty; ValidateString(encode) == out_R with invalid UTF-8 replaced by \\ufffd; EncodeNullForInfOrNan == out_R of the value with NaN/Inf replaced by a sentinel, sentinel -> null, and no change without NaN/Inf; CompactMarshaler changes no token; NoQuoteTextMarshaler/NoValidateJSONMarshaler change nothing for types without such marshalers; NoEncoderNewline only removes the stream encoder's newline; UseInt64/UseNumber change only how numbers land in interface{}; CopyString/NoValidateJSONSkip change nothing on valid documents; DisallowUnknownFields agrees with encoding/json's DisallowUnknownFields on which documents have unknown keys and changes no accepted value; ValidateString(decode) changes nothing for clean strings and equals decoding the UTF-8-corrected document; UseUnicodeErrors changes nothing without lone surrogate escapes and never changes a value silently; CaseSensitive == encoding/json on the document without the keys that match only case-insensitively. Entry points: encoder.Encode/EncodeInto/MarshalToString/MarshalIndent/stream encoder vs Froze().Marshal, decoder.Decoder+SetOptions/UnmarshalFromString vs Froze().Unmarshal with the same switches. distinct = hash(switch, other switches, type, value/document)",
